@@ -401,3 +401,36 @@ CHECKS["C17"]["outside"] = "the history triggers (revision numbering, the date s
 CHECKS["C19"]["units"].append(py_unit("writes", "writes-C19", ["--props", "C19"]))
 CHECKS["C19"]["explanation"] += " Writes: every captured write statement (volume upsert, account upserts, metadata updates and deletes, revert update) executed on symbolic tables leaves every row of another ledger — and every row it does not name — unchanged."
 CHECKS["C19"]["outside"] = "trigger bodies and log/transaction inserts (sequences); that the alone-in-bucket flag is only set while the bucket holds one ledger; several server processes sharing a bucket"
+
+
+CHECKS["C14"] = {
+    "level": "other",
+    "explanation": "What the code contributes to reference uniqueness is (a) the definition of the unique index, resolved from the migration files on every run (create / drop / rename followed in order), (b) the value the real InsertTransaction writes for a transaction without reference (captured SQL, executed by the DML executor), (c) the constraint name the Go code turns into ErrTransactionReferenceConflict (read from transactions.go). z3 decides over every content of a symbolic transactions table that the resolved index admits: no two transactions of one ledger share a non-empty reference; the index forbids nothing more (equal references in two ledgers are admitted); a transaction without reference is never subject to the index; the mapped constraint name is that unique index. The rollback of the losing writer and the error seen by the caller are covered by C07 (operation create_ref_conflict on the store model).",
+    "bounds": {"quick": "K <= 3 transactions in the table", "thorough": "K <= 4"},
+    "outside": "PostgreSQL's enforcement of a unique index under concurrent inserts (the second inserter waits for the first transaction to end, then fails) is assumed, not modelled: 'exactly one of two concurrent creates commits' rests on it",
+    "assumptions": COMMON_ASSUME[2:] + SQL_ASSUME + ["a unique index admits a table content iff no two rows satisfying the index predicate agree on all index columns (NULLs are distinct)"],
+    "technique": "bounded symbolic check (z3) over every table content admitted by the index definition resolved from the migrations, plus symbolic execution of the captured INSERT",
+    "units": [py_unit("c14_reference", "c14", [])],
+}
+
+
+CHECKS["C34"] = {
+    "level": "other",
+    "explanation": "create_block's row-selection query is extracted from the current body of the function (resolved from the migrations on every run) and evaluated by the SQL evaluator on a symbolic logs table (several ledgers, symbolic ids, symbolic block size) in which every row carries a 'committed when the builder first runs' bit; create_blocks' loop is unrolled to quiescence on the rows visible first, then on all rows. Decided: when ids commit in id order, the block ranges partition the ledger's log ids and every block's hashed rows are exactly the committed logs of its range; for an arbitrary commit order the same obligation is checked and yields the recorded finding (a log committing after a higher id is never hashed).",
+    "bounds": {"quick": "K <= 3 logs, block size symbolic >= 1, two builder runs", "thorough": "K <= 4"},
+    "outside": "the digest itself (uninterpreted: only WHICH rows it is computed over is compared) and its text framing; more than two builder runs; the Go worker that calls the procedure",
+    "assumptions": COMMON_ASSUME[2:] + SQL_ASSUME[1:2] + ["READ COMMITTED: a run of the procedure sees exactly the rows committed before it; sequence values are drawn at insert time and never rolled back; without HASH_LOGS=SYNC nothing orders log commits by id (InsertLog takes the advisory lock only for SYNC: shown by the captured SQL per feature set)"],
+    "technique": "bounded symbolic evaluation (z3) of the selection query of the stored procedure, resolved from the migrations, over symbolic tables with a symbolic commit schedule",
+    "units": [py_unit("c34_blocks", "c34", [])],
+}
+
+
+CHECKS["C10"] = {
+    "level": "other",
+    "explanation": "Reduced scope: the FRAMING of the hashed text. Both sides are read from the current source on every run — SQL: the concatenation that builds marshalledAsJSON in the body of the insert trigger set_log_hash and of compute_hash (resolved from the migrations); Go: the anonymous struct Log.ComputeHash encodes (field order, JSON names, omitempty) in internal/log.go. With the log type, idempotency key and schema version as symbolic strings (over an alphabet that needs no JSON escaping) and the payload / date renderings as opaque strings shared by both sides, z3 decides whether the two byte strings can differ. For logs without schema version they cannot; for logs with one the trigger's text differs (recorded finding); compute_hash agrees with Go on every such input.",
+    "bounds": {"quick": "idempotency key and schema version of <= 2 bytes over [a-zA-Z0-9_-], type <= 12 bytes", "thorough": "<= 3 bytes"},
+    "outside": "everything below the framing: encode(memento,'escape') vs the Go rendering of the payload, to_json(date), jsonb key order and number formatting, and the JSON escaping Go applies to the idempotency key and schema version while SQL concatenates them raw (quotes, backslashes, <, >, &, control and non-ASCII characters are excluded from the quantification — a second suspected source of disagreement that this check cannot decide); the previous-hash prefix (base64) is compared only by reading",
+    "assumptions": ["the migration resolver keeps the last definition of each function", "payload and date renderings are equal on both sides (not encodable: PostgreSQL text functions)", "bun stores an empty schema version as NULL (nullzero tag)"],
+    "technique": "string-theory query (z3) over the two framings extracted from the current SQL and Go sources",
+    "units": [py_unit("c10_hash", "c10", [])],
+}
